@@ -700,9 +700,9 @@ func (e *Explorer) successors(s *state) (succ []*state, terminal string) {
 		cb := &e.sc.Cbs[ci]
 		ci := ci
 		switch cb.Kind {
-		case "echo":
+		case "echo", "echoobj":
 			n := s.clone()
-			n.cbs[ci] = "ret:echo"
+			n.cbs[ci] = "ret:" + cb.Kind
 			succ = append(succ, n)
 		case "spawn":
 			n := s.clone()
